@@ -332,6 +332,16 @@ def _jsonable(x):
     return str(x)
 
 
+def probe_violation(rep, prop, detail, task, model, native):
+    """a concrete input on which the NATIVELY compiled crate breaks the exact oracle (found while pushing the validation corpus
+    through the real build): reported as a violation of its own, marked native-probe.  A pass is never concluded from probing."""
+    if len([v for v in rep.confirmed if v.get('kind') == 'native-probe']) >= 4:
+        return
+    v = {'kind': 'native-probe', 'detail': detail, 'task': task, 'model': model, 'native': native}
+    v['replay_file'] = write_replay_file(prop, v)
+    rep.confirmed.append(v)
+
+
 class Report:
     """aggregates task results of one check run and decides the exit code"""
 
